@@ -40,7 +40,7 @@ def apply_json(mut, root):
     path = os.path.join(root, mut["file"])
     s = open(path).read()
     if s.count(mut["old"]) != 1:
-        raise SystemExit("mutant %s: old text occurs %d times in %s" % (mut.get("note"), s.count(mut["old"]), mut["file"]))
+        raise ValueError("mutant %s: old text occurs %d times in %s" % (mut.get("note"), s.count(mut["old"]), mut["file"]))
     open(path, "w").write(s.replace(mut["old"], mut["new"]))
 
 
